@@ -108,6 +108,11 @@ def decide(h, meta, cfg):
         import traceback
         r['verdict'] = 'error'
         r['detail'] = f'{type(e).__name__}: {e}\n' + traceback.format_exc()[-1500:]
+    if r['verdict'] == 'undecided' and not h.get('sufficient'):
+        try:
+            _native_search(h, os.path.join(BUILD, 'work', h['prop'], h['name']), r, cfg['seed'])
+        except Exception as e:
+            r['native_search_error'] = f'{type(e).__name__}: {e}'
     r.pop('_wit', None)
     r['wall_s'] = round(time.time() - t0, 2)
     return r
@@ -418,8 +423,6 @@ def _decide(h, meta, cfg, r):
         r['verdict'], r['detail'] = final
     if vac_fail and r['verdict'] != 'violation':
         r['verdict'], r['detail'] = vac_fail
-    if r['verdict'] == 'undecided' and not h.get('sufficient'):
-        _native_search(h, work, r, cfg['seed'])
 
 
 def pinned_value(k, variant):
